@@ -1,5 +1,6 @@
 CONSTANTS
   Alphabet = {97, 32, 10, 34, 40, 41, 59, 92, 36, 0, 46}
+  Mode = "enum"
 INIT Init
 NEXT Next
 INVARIANT Out
